@@ -498,6 +498,23 @@ theorem step_inv {A : Nat → Nat → Rat} {n t : Nat} {p0 : Nat → Nat} {u v :
 
 theorem Tab.get_of' {α : Type} (n : Nat) (f : Nat → α) : (Tab.of n f).get = f := funext (Tab.get_of n f)
 
+theorem bumpT_fold (n : Nat) (used : Nat → Bool) (p : Nat → Nat) (d : Rat) (L : List Nat) (t : Tab Rat) :
+    (L.foldl (fun t j => if used j then Tab.of n (upd t.get (p j) (t.get (p j) + d)) else t) t).get
+      = L.foldl (fun u j => if used j then upd u (p j) (u (p j) + d) else u) t.get := by
+  induction L generalizing t with
+  | nil => rfl
+  | cons a L ih =>
+    simp only [List.foldl_cons]
+    rw [ih]
+    congr 1
+    split
+    · rw [Tab.get_of']
+    · rfl
+
+/-- the tabulated loop the driver runs computes the specification fold -/
+theorem bumpT_get (n : Nat) (used : Nat → Bool) (p : Nat → Nat) (d : Rat) (t : Tab Rat) :
+    (bumpT n used p d t).get = bumpU n used p d t.get := bumpT_fold n used p d _ t
+
 def LInv (A : Nat → Nat → Rat) (n t : Nat) (p0 : Nat → Nat) (s : Loop) (rk : Nat → Nat) (c : Nat) : Prop :=
   LInvF A n t p0 s.u.get s.v.get s.way.get s.minv.get s.used.get s.j0 rk c
 
@@ -520,7 +537,7 @@ theorem search_inv {A : Nat → Nat → Rat} {n t : Nat} {p0 : Nat → Nat} (hP 
       simp only [hd]
       apply ih _ (upd rk s.j0 c) (c + 1)
       · unfold LInv
-        simp only [Tab.get_of']
+        simp only [Tab.get_of', bumpT_get]
         exact hnew
       · exact hst
       · simp only [Tab.get_of']
